@@ -229,6 +229,45 @@ def parse_writer_constants():
     return c
 
 
+def parse_reader_fixups():
+    """The block after `finish_fields:` in reb_input_fields: the loops that re-link address-valued members of the
+    restored records.  Every statement must be understood (fail-closed)."""
+    inp = strip_c_comments(open(os.path.join(SRC, "input.c")).read())
+    m = re.search(r"finish_fields:\s*(.*?)\n\}\s*\n", inp, re.S)
+    if not m: die("finish_fields block not found in input.c")
+    body = m.group(1)
+    relinks, count_sets, other = [], [], []
+    pos = 0
+    loop = re.compile(r"\s*for\s*\(unsigned int l=0;l<r->(\w+);l\+\+\)\{(.*?)\}", re.S)
+    tree = re.compile(r"\s*if\s*\(r->gravity==REB_GRAVITY_TREE \|\| r->collision==REB_COLLISION_TREE \|\| r->collision==REB_COLLISION_LINETREE\)\{\s*"
+                      r"for\s*\(unsigned int l=0;l<r->N_allocated;l\+\+\)\{\s*reb_tree_add_particle_to_tree\(r, l\);\s*\}\s*\}", re.S)
+    simple = re.compile(r"\s*(r->(\w+) = r->(\w+);|reb_tree_delete\(r\);|r->ri_whfast512\.recalculate_constants = 1;)")
+    while pos < len(body) and body[pos:].strip():
+        mt = tree.match(body, pos)
+        ml = loop.match(body, pos)
+        ms = simple.match(body, pos)
+        if mt:
+            other.append("tree_rebuild"); pos = mt.end()
+        elif ml:
+            bound, lb = ml.group(1), ml.group(2)
+            arr, sets = None, []
+            for st in [x.strip() for x in lb.split(";") if x.strip()]:
+                mm = re.match(r"^r->(\w+)\[l\]\.(\w+) = (NULL|r)$", st)
+                if not mm: die("fix-up loop statement not understood: %r" % st)
+                if arr not in (None, mm.group(1)): die("fix-up loop touches two arrays: %r" % lb)
+                arr = mm.group(1)
+                sets.append((mm.group(2), "RNull" if mm.group(3) == "NULL" else "RSelf"))
+            if arr is None: die("empty fix-up loop")
+            relinks.append((arr, bound, sets)); pos = ml.end()
+        elif ms:
+            if ms.group(2): count_sets.append((ms.group(2), ms.group(3)))
+            else: other.append(ms.group(1).strip())
+            pos = ms.end()
+        else:
+            die("statement after finish_fields not understood: %r" % body[pos:pos + 120])
+    return relinks, count_sets, other
+
+
 def parse_diff_members():
     src = strip_c_comments(open(os.path.join(SRC, "binarydiff.c")).read())
     m = re.search(r"int\s+reb_particle_diff\s*\(\s*struct reb_particle p1\s*,\s*struct reb_particle p2\s*\)\s*\{(.*?)\n\}", src, re.S)
@@ -285,6 +324,7 @@ def main():
     ssize, members = flatten_sim(recs)
     consts = parse_writer_constants()
     pm, pbit, vm, vbit, wallprefix = parse_diff_members()
+    relinks, count_sets, fix_other = parse_reader_fixups()
     psize, pfields = flat_record(recs, "struct reb_particle")
     vsize, vfields = flat_record(recs, "struct reb_variational_configuration")
     bsize, bfields = flat_record(recs, "struct reb_binary_field")
@@ -340,6 +380,10 @@ def main():
     L.append("Definition particle_diff_bitwise : list string := [%s]." % "; ".join(qs(x) for x in pbit))
     L.append("Definition varconfig_diff_bitwise : list string := [%s]." % "; ".join(qs(x) for x in vbit))
     L.append("Definition varconfig_diff_members : list string := [%s]." % "; ".join(qs(x) for x in vm))
+    L.append("(* reader fix-ups after finish_fields: for l < <bound>: <array>[l].<member> := NULL | the new simulation *)")
+    L.append("Definition reader_relinks : list (string * string * list (string * relink_value)) := [%s]." % "; ".join(
+        "(%s, %s, [%s])" % (qs(a), qs(b), "; ".join("(%s, %s)" % (qs(mn), v) for mn, v in sets)) for a, b, sets in relinks))
+    L.append("Definition reader_count_sets : list (string * string) := [%s]." % "; ".join("(%s, %s)" % (qs(a), qs(b)) for a, b in count_sets))
     L.append("Definition walltime_prefix : string := %s." % qs(wallprefix))
     os.makedirs(os.path.dirname(OUT), exist_ok=True)
     new = "\n".join(L) + "\n"
